@@ -25,7 +25,7 @@ RULE = (
     "Oracle: own centre parameterisation; every cubic is sampled at 9 parameters and each sample must lie within "
     "0.03% of the corrected ellipse in its unit-circle frame, angles must advance monotonically in the sweep "
     "direction, total swept angle must equal the reference delta-theta (1e-6 rad), first point = start, last "
-    "point == end exactly (end points closer than 1e-6 of the coordinate magnitude are fenced: only no-exception and exact end are required there), zero radius -> one straight line, coincident endpoints -> nothing. "
+    "point == end exactly; near-coincident but distinct end points must still produce segments (end points closer than 1e-6 of the coordinate magnitude are fenced: only no-exception and exact end are required there), zero radius -> one straight line, coincident endpoints -> nothing. "
     "Non-trivial = non-degenerate arc with rx != ry and rotation not a multiple of 90 degrees; distinct = distinct argument tuple."
 )
 ASSUMPTIONS = ["reference centre parameterisation (vlib/refsvg/arcref.py) follows SVG implementation notes F.6.5-F.6.6 (self-tested on hand-computed arcs)"]
@@ -102,7 +102,9 @@ def check_arc(case) -> Result:
     if chord < 1e-6 * scale:
         cls.append("ill-conditioned(fenced)")
         r.classes = tuple(cls)
-        if segs and segs[-1][2] != (x2, y2):
+        if not segs:
+            r.bad("near-coincident-dropped", f"end points differ (by {chord!r}) but the arc produced no segment at all: {case}")
+        elif segs[-1][2] != (x2, y2):
             r.bad("end-not-exact", f"last end point {segs[-1][2]} != arc end {(x2, y2)}")
         return r
     arc = centre_param(x1, y1, rx, ry, rot, large, sweep, x2, y2)
@@ -179,7 +181,7 @@ def _rot():
 
 @st.composite
 def arc_case(draw):
-    kind = draw(st.sampled_from(["random"] * 6 + ["exact", "barely", "tiny-radii", "zero", "negative", "coincident", "half-circle"]))
+    kind = draw(st.sampled_from(["random"] * 6 + ["exact", "barely", "tiny-radii", "zero", "negative", "coincident", "half-circle", "near-coincident"]))
     via = draw(st.sampled_from(["fn", "fn", "abs", "rel"]))
     large, sweep = draw(st.integers(0, 1)), draw(st.integers(0, 1))
     x1, y1 = draw(_coord()), draw(_coord())
@@ -216,6 +218,12 @@ def arc_case(draw):
             ry = -ry
     elif kind == "coincident":
         x2, y2 = x1, y1
+    elif kind == "near-coincident":
+        # the "full circle with one arc" idiom with a minute gap: distinct end points, so the arc exists
+        gap = draw(st.sampled_from([5e-10, 1e-10, 9e-10, 1e-12, 2e-9]))
+        x2, y2 = x1, y1 + gap
+        if (x2, y2) == (x1, y1):
+            y2 = math.nextafter(y1, math.inf)
     elif kind == "half-circle":
         d = math.hypot(x2 - x1, y2 - y1)
         rx = ry = d / 2
